@@ -4,21 +4,28 @@
       through differences.  Proved for the primitive/table level ([table], [plane0], [dtable],
       [vrr_prim], [eri_prim], [prim_data]) and lifted to the shell-pair / shell blocks
       ([mm_block], [moment_block], [overlap_block], [diffop_block], [kinetic_block],
-      [momentum_block_re], [one_elec_point], [point_charge_block], [eri_block], [block_with]).
-      For exp / Boys arguments the ARGUMENT is shown unchanged.
+      [momentum_block_re], [one_elec_point], [point_charge_block], [eri_block], [block_with],
+      [eval_block]) and (section 4) to whole-basis functions ([overlap_integral], [kinetic_integral],
+      [moment_integral], [point_charge_integral], [nuclear_attraction_integral],
+      [evaluate_basis_model], [evaluate_deriv_basis_model]).  For exp / Boys arguments the ARGUMENT
+      is shown unchanged.
    2. ORIGIN LAWS.  Binomial shift of the moment origin ([S3_origin_shift], [T3_origin_shift],
       [table_origin_shift]); angular momentum about a displaced origin = angular momentum
-      - d x p at the level of the primitive products the block model contracts
-      ([angmom_prim_shift]).
-   3. SIGNED AXIS PERMUTATIONS.  Reflection parity of the 1-D moments ([S3_parity], [T3_parity],
-      [table_parity]) and of the 1-D derivative tables ([dtable_parity]); the 3-D primitive is a
-      product over the axes, so exchanging two axes exchanges the component indices
-      ([prim3_swap_xy], [prim3_swap_yz], norms: [norm_prim_swap_xy] ...).  For the Boys-type
-      integrals the law is stated at spec level: the per-axis s-polynomial of SPoly has parity
-      (-1)^a under reflection of the axis ([Pc_parity], [Vf_parity]) and the 3-D quantity is Phi of a
-      product of per-axis polynomials, which is symmetric in the axes ([Phi_pmul_comm]).
-   General rotations are NOT proved (they need the representation of O(3) on degree-l polynomials);
-   they are decided by the correspondence check harness/c12.py. *)
+      - d x p for the primitive products ([angmom_prim_shift]) and, through the linearity of the
+      contraction (section 3b), for every entry of the angular-momentum block ([angmom_block_shift]).
+   3. SIGNED AXIS PERMUTATIONS (one reflection and two transpositions generate all 48).
+      Reflection parity of the 1-D moments ([S3_parity], [T3_parity], [table_parity]) and of the 1-D
+      derivative tables ([dtable_parity]); the 3-D primitive is a product over the axes, so exchanging
+      two axes exchanges the component indices ([prim3_swap_xy], [prim3_swap_yz], norms:
+      [norm_prim_swap_xy] ...), lifted to the contracted blocks ([mm_block_swap_xy],
+      [overlap_block_swap_xy], [diffop_block_swap_xy], ..._yz; [mm_block_reflect_x],
+      [overlap_block_reflect_x], [diffop_block_reflect_x]).  For the Boys-type integrals the law is
+      stated at spec level: the per-axis s-polynomial of SPoly has parity (-1)^a under reflection of
+      the axis ([Vf_parity], [Pc_parity_Phi], [Pc_parity_eval]) and the 3-D quantity is Phi of a product
+      of per-axis polynomials, which is symmetric in the axes ([Phi_pmul_comm], [boys_spec_swap_xy] ...).
+   5. The law for GENERAL rotations is written down ([rotation_law_overlap]) but NOT proved (it needs
+      the representation of O(3) on degree-l polynomials); it is decided by the correspondence check
+      harness/c12.py. *)
 From Coq Require Import List Arith Lia Field Bool.
 From GB Require Import Base.Field Base.FNum Base.Tables Gauss.Moment1D Gauss.SPoly Model.Shell
   Model.MomentInt Model.DiffOp Model.OneElec Model.TwoElec Model.Eval
